@@ -213,6 +213,39 @@ def itermut_skip_to_index_loop(w, i, sc):
     w.rewrite_lines("R21-iter-mut-skip", i, j, new, note="in-place update loop over V.iter_mut().skip(S) as an index loop with Vec::set; the two right-hand sides are copied verbatim and each reads only its own old component")
 
 
+def index_assign_loop(w, i_for, sc):
+    """R21 (variant): `for J in S..V.len() { let (P0, P1, P2) = &V[J]; V[J] = (P0, E1, E2); }` -> the same index loop with
+    Vec::set that R21 produces (Verus has no IndexMut on Vec); E1 / E2 copied verbatim."""
+    cands = [q for q in range(i_for + 1, len(w.lines)) if re.match(r"^\s*for (\w+) in (\w+)\.\.(\w+)\.len\(\) \{$", w.lines[q])]
+    if not cands:
+        raise LostAnchor(f"{w._where(i_for)}: the in-place substitution loop of the Let arm was not found in a known form")
+    i = cands[0]
+    m = re.match(r"^(\s*)for (\w+) in (\w+)\.\.(\w+)\.len\(\) \{$", w.lines[i])
+    ind, jv, skip, vec = m.groups()
+    j = w.block_end(i)
+    body = [l.strip() for l in w.lines[i + 1 : j] if l.strip() and not l.strip().startswith("//")]
+    text = " ".join(body)
+    mm = re.match(r"^let \((\w+), (\w+), (\w+)\) = &%s\[%s\]; %s\[%s\] = \( (\w+), (.*), (Rc::new\(.*\)), \);$" % (vec, jv, vec, jv), text)
+    if not mm or mm.group(4) != mm.group(1):
+        raise LostAnchor(f"{w._where(i)}: index form of the substitution loop not as expected")
+    p0, p1, p2, _, e1, e2 = mm.groups()
+    for own, other, e in ((p1, p2, e1), (p2, p1, e2)):
+        if re.search(r"\b%s\b" % re.escape(other), e):
+            raise LostAnchor(f"{w._where(i)}: the new value of `{own}` mentions `{other}`; rule R21 does not apply")
+    idx = re.search(r"open\(\w+, (\w+), ", e1)
+    rep = lambda t: t.replace("$NA", "new_" + p1).replace("$ND", "new_" + p2).replace("$IDX", idx.group(1) if idx else "i_index").rstrip("\n").split("\n")
+    new = [ind + f"for j in itj: {skip}..{vec}.len()"] + rep(sc["normalize_weak_head.let.subst.loop"]) + [ind + "{"] + rep(sc["normalize_weak_head.let.subst.body"]) + [
+        ind + f"    let entry_name = {vec}[j].0;",
+        ind + f"    let new_{p1} = {{ let {p1} = &{vec}[j].1; {e1} }};",
+        ind + f"    let new_{p2} = {{ let {p2} = &{vec}[j].2; {e2} }};"] + rep(sc["normalize_weak_head.let.subst.set"]) + [
+        ind + f"    {vec}.set(j, (entry_name, new_{p1}, new_{p2}));", ind + "}"]
+    if jv != "j":
+        new = [re.sub(r"\b%s\b" % re.escape(jv), "j", l) if k >= len(new) - 6 else l for k, l in enumerate(new)]
+    # a lint attribute in front of the loop is dropped
+    a = i - 1 if re.match(r"^\s*#\[allow\(clippy::\w+\)\]$", w.lines[i - 1]) else i
+    w.rewrite_lines("R21-index-assign", a, j, new, note="in-place update loop `for j in S..V.len() { let (a, b, c) = &V[j]; V[j] = (a, E1, E2); }` with Vec::set instead of IndexMut; E1 / E2 copied verbatim, each reads only its own old component")
+
+
 def weave_normalize(w, sc):
     w.contract(sc["normalize_weak_head.contract"], ret="r", attrs="#[verifier::exec_allows_no_decreases_clause]")
     w.body_first(sc["normalize_weak_head.first"])
@@ -274,9 +307,12 @@ def weave_normalize(w, sc):
     k = w.find(r"^\s*body = open\(&body, \w+, &unfolded_definition, 0\);$", 1, i_for)
     insert_at(w, k + 1, sc["normalize_weak_head.let.body.post"], anchor="after the body is substituted")
     insert_at(w, k, sc["normalize_weak_head.let.body.pre"], anchor="before the body is substituted")
-    # the in-place substitution loop
-    k = w.find(r"^\s*for \(\w+, \w+, \w+\) in definitions\.iter_mut\(\)\.skip\(\w+\) \{$", 1, i_for)
-    itermut_skip_to_index_loop(w, k, sc)
+    # the in-place substitution loop: `iter_mut().skip(S)` (R21), or already written with indices and `V[j] = (..)`
+    ks = [q for q in range(i_for + 1, j_for + 8) if q < len(w.lines) and re.match(r"^\s*for \(\w+, \w+, \w+\) in definitions\.iter_mut\(\)\.skip\(\w+\) \{$", w.lines[q])]
+    if ks:
+        itermut_skip_to_index_loop(w, ks[0], sc)
+    else:
+        index_assign_loop(w, i_for, sc)
     # the unfolding
     U.hoist_argument(w, r"^\s*let unfolded_definition = open\($", r"^\s*&Term \{$", "inserted", sc["normalize_weak_head.let.inserted.post"])
     w.after(r"^\s*let unfolded_definition = open\($", sc["normalize_weak_head.let.unfolded.post"])
